@@ -666,6 +666,20 @@ func (pc *provCtx) validatedAt(v ssa.Value, use ssa.Instruction) bool {
 			}
 		}
 		if !same {
+			// two loads of the same field of the same object with no store to that field in the function
+			f1, b1 := fieldLoad(arg)
+			f2, b2 := fieldLoad(v)
+			if f1 != nil && f1 == f2 && b1 == b2 {
+				stored := false
+				for _, st := range pc.p.stores[f1] {
+					if st.Parent() == fn {
+						stored = true
+					}
+				}
+				same = !stored
+			}
+		}
+		if !same {
 			continue
 		}
 		if passEdgeDominates(vc, use.Block()) {
